@@ -52,6 +52,14 @@ impl std::ops::Div<u32> for Duration {
         Duration(self.0 / rhs as u64)
     }
 }
+impl std::ops::Sub for Duration {
+    type Output = Self;
+    /// contract of std: `Duration - Duration` PANICS when the result would be negative
+    fn sub(self, rhs: Self) -> Self {
+        assert!(self.0 >= rhs.0, "overflow when subtracting durations (std panics)");
+        Duration(self.0 - rhs.0)
+    }
+}
 impl std::ops::Add for Duration {
     type Output = Self;
     fn add(self, rhs: Self) -> Self {
@@ -142,6 +150,40 @@ fn vk_c14_limits_clocks() {
     assert!(soft <= hard);
     assert!(2 * hard <= remaining - overhead);
     assert!(ts.next_check_at == params::CHECK_TERMINATION_NODE_FREQUENCY);
+}
+
+//@ obligation: C13.move_overhead.any_clock
+//@ property: C13 C04 C14
+//@ domain: complete
+//@ functions: engine/search/time_control.rs::TimeStrategy::new
+//@ timeout: 900
+//@ mem_gb: 6
+//@ note: survivability of EVERY advertised Move Overhead value (0..=1000 ms) under EVERY clock a `go` can carry -- the mover's clock present or absent, smaller than, equal to or larger than the overhead, increments and moves-to-go (>= 1) arbitrary: TimeStrategy::new does not panic (no Duration underflow / overflow, no division by zero) and still yields soft <= hard. (The bound '2*hard <= remaining - overhead' is C14.limits.clocks and needs overhead <= remaining / 2.)
+//@ assumes: std::time::Duration modelled as exact integer nanoseconds with std's panics on underflow kept as assertions; Duration::mul_f32 replaced by a contract implied by exact real multiplication
+#[kani::proof]
+#[kani::unwind(4)]
+fn vk_c13_move_overhead_any_clock() {
+    let game = any_game();
+    let clocks = Clocks {
+        white_clock: any_duration_opt(),
+        black_clock: any_duration_opt(),
+        white_increment: any_duration_opt(),
+        black_increment: any_duration_opt(),
+        moves_to_go: if kani::any() { let m: u32 = kani::any(); kani::assume(m >= 1); Some(m) } else { None },
+    };
+    let overhead_ms: usize = kani::any();
+    kani::assume(overhead_ms <= 1000);
+    let mut options = EngineOptions::default();
+    options.move_overhead = overhead_ms;
+    let ours = match game.player {
+        Player::White => clocks.white_clock,
+        Player::Black => clocks.black_clock,
+    };
+    kani::cover!(ours.is_none() && overhead_ms == 1000);
+    kani::cover!(ours.is_some() && ours.unwrap().0 < overhead_ms as u64 * 1_000_000);
+    let tc = TimeControl::Clocks(clocks);
+    let (ts, _control) = TimeStrategy::new(&game, &tc, &options);
+    assert!(ts.soft_stop.0 <= ts.hard_stop.0);
 }
 
 //@ obligation: C14.limits.exact_time
